@@ -96,7 +96,7 @@ FLOORS = {
         "distinct": 3700,
     },
 }
-N_LARGE = {"quick": 4, "thorough": 48}
+N_LARGE = {"quick": 5, "thorough": 54}
 
 
 def generate(rng, tier, i):
@@ -110,8 +110,8 @@ def enumerate_cases(tier):
     if tier == "quick":
         # one table per boundary: potential offset at 32767/32768, a level beyond 32767 entries,
         # a 255-boundary / wide-vocabulary table, a level of 32765..32768 entries
-        js = [seed % 2, 2 + (seed // 2) % 2, 4 + seed % 3, 7]
-        js = [j + 8 * (seed % 6) for j in js]
+        js = [seed % 2, 2 + (seed // 2) % 2, 4 + seed % 3, 7, 8]  # 8: largest offset exactly the int16 maximum
+        js = [j + len(G.LARGE_KINDS) * (seed % 6) for j in js]
     else:
         js = range(N_LARGE[tier])
     for j in js:
